@@ -26,7 +26,7 @@ CHECKS = {
          "Trusted base: the reference binder bind_component and interpreter in harness/src/stmt.rs. Not specified and therefore discarded: undefined attribute values, explicit `body` attributes, spreads with non-string keys; duplicates at a shadowed priority are accepted or rejected by the engine depending on template-name order (not claimed either way).",
          "DESIGN.md section 4 C05"),
  "C04": ("model-based differential: generated inheritance chains (block trees, overrides, nested fresh blocks, super() in several positions, skipped levels) rendered from every template of the chain and block by block, against a reference resolver written from the definition; registration in a random permutation (one batch) and parents-first one by one must behave the same",
-         "Exploration: 24k generated chains of 1..7 templates (quick; x25 thorough, up to 13) with up to 10 blocks placed nested, inside filter sections, captured set blocks and component-call bodies; every template of the chain is an entry point for render and render_block of every known block (~170k render_block comparisons per quick run); bodies carry unique markers, assignments and observation points.",
+         "Exploration: 24k generated chains of 1..7 templates (quick; x8 thorough, up to 11) with up to 10 blocks placed nested, inside filter sections, captured set blocks and component-call bodies; every template of the chain is an entry point for render and render_block of every known block (~170k render_block comparisons per quick run); bodies carry unique markers, assignments and observation points.",
          "Trusted base: the reference resolver in harness/src/stmt.rs (lineage = definitions most-derived first; super() = next definition). Nested blocks introduced by overrides always get fresh names (no cyclic nesting via super(), finding F9); blocks executed more than once in a render are not judged by render_block.",
          "DESIGN.md section 4 C04"),
  "C18": ("differential between output channels (render vs render_to into a Vec, a 1-byte writer, a short-write writer with interruptions) and fault enumeration of a failing writer (every byte offset, every write call) with the prefix invariant, for all four API variants; purity (repeatability, context equality); barrier-released thread stress against a sequential baseline; compile-time Send + Sync probe crate",
